@@ -17,26 +17,28 @@ theorem getScriptOp_facts (rest : Bytes) (op : Nat) (d r : Bytes) (sz : Nat)
     simp only [Option.some.injEq, Prod.mk.injEq] at h
     exact h.2.1.symm
 
-/-- the states Core's loop can be in, started on `stack0` (any instruction sequence) -/
-inductive Reach (stack0 : List Bytes) : Consensus.State → Prop
-  | init : Reach stack0 { stack := stack0 }
-  | step {st st' : Consensus.State} {op : Nat} {data : Bytes} {pcNext : Nat} :
-      Reach stack0 st → op < 256 → (0x4e < op → data = []) → specStep chk cfg st op data pcNext = .ok st' → Reach stack0 st'
+/-- the states Core's loop is in while it follows `cfg.script`, started on `stack0`: `(pc, state)` -/
+inductive Reach (stack0 : List Bytes) : Nat → Consensus.State → Prop
+  | init : Reach stack0 0 { stack := stack0 }
+  | step {pc : Nat} {st st' : Consensus.State} {op : Nat} {data rest' : Bytes} {size : Nat} :
+      Reach stack0 pc st → getScriptOp (cfg.script.drop pc) = some (op, data, rest', size) →
+      specStep chk cfg st op data (pc + size) = .ok st' → Reach stack0 (pc + size) st'
 
-/-- **signature deletion is shared**: in every state of Core's run, for any signatures taken from its stack, pycoin's
-`_delete_signature` walk (bottom-most signature first) and Core's `FindAndDelete` (top-most first) produce the same
-script code — the content of property C04 (`C04_findAndDelete_eq_partial`).  Holds trivially for witness VMs. -/
+/-- **signature deletion is shared**: in every state of Core's run of `cfg.script`, for any signatures taken from its
+stack, pycoin's `_delete_signature` walk (bottom-most signature first) and Core's `FindAndDelete` (top-most first)
+produce the same script code — the content of property C04.  Holds trivially for witness VMs, and for every script whose
+instructions all decode (`sigDelShared_walkable`). -/
 def SigDelShared (stack0 : List Bytes) : Prop :=
-  ∀ st, Reach chk cfg stack0 st → ∀ sigs, (∀ x ∈ sigs, x ∈ st.stack) → DelAgrees cfg st sigs
+  ∀ pc st, Reach chk cfg stack0 pc st → ∀ sigs, (∀ x ∈ sigs, x ∈ st.stack) → DelAgrees cfg st sigs
 
 theorem sigDelShared_witness (h : cfg.witness = true) (stack0 : List Bytes) : SigDelShared chk cfg stack0 :=
-  fun st _ sigs _ => delAgrees_witness cfg h st sigs
+  fun _ st _ sigs _ => delAgrees_witness cfg h st sigs
 
 /-- the two loops from corresponding states, all opcodes -/
 theorem loop_eq_all (hw : hasFlag cfg.flags VERIFY_MINIMALIF = true → cfg.witness = true)
     (hwp : hasFlag cfg.flags VERIFY_WITNESS_PUBKEYTYPE = true → cfg.witness = true) (hchk : ChkWF chk)
     (stack0 : List Bytes) (hdel : SigDelShared chk cfg stack0) :
-    ∀ (fuel : Nat) (st : Consensus.State) (pc : Nat), Reach chk cfg stack0 st → pc ≤ cfg.script.length →
+    ∀ (fuel : Nat) (st : Consensus.State) (pc : Nat), Reach chk cfg stack0 pc st → pc ≤ cfg.script.length →
       (evalLoop (stdEnv chk) cfg fuel (absS st pc)).toOption =
         (specLoop chk cfg fuel (cfg.script.drop pc) pc st).toOption.map (absS · cfg.script.length) := by
   intro fuel
@@ -62,7 +64,7 @@ theorem loop_eq_all (hw : hasFlag cfg.flags VERIFY_MINIMALIF = true → cfg.witn
         cases hd : cfg.script.drop pc with
         | nil => have := List.drop_eq_nil_iff.mp hd; omega
         | cons => rfl
-      have hi := instr_eq_all chk cfg st pc h hw hwp hchk (hdel st hreach)
+      have hi := instr_eq_all chk cfg st pc h hw hwp hchk (hdel pc st hreach)
       have hpcs : (absS st pc).pc < cfg.script.length := h
       simp only [evalLoop, hpcs, if_true, hne, Bool.false_eq_true, if_false, bind, Except.bind]
       cases hg : getScriptOp (cfg.script.drop pc) with
@@ -90,8 +92,7 @@ theorem loop_eq_all (hw : hasFlag cfg.flags VERIFY_MINIMALIF = true → cfg.witn
           have hm := (toOption_ok_iff _ _).mp hi
           simp only [hm, hs]
           rw [hdrop]
-          obtain ⟨hlt, hdat⟩ := getScriptOp_facts _ _ _ _ _ hg
-          exact ih st' (pc + size) (Reach.step hreach hlt hdat hs) hpc2
+          exact ih st' (pc + size) (Reach.step hreach hg hs) hpc2
     · have hpc' : pc = cfg.script.length := by omega
       subst hpc'
       have h0 : ¬ (absS st cfg.script.length).pc < cfg.script.length := Nat.lt_irrefl _
